@@ -168,7 +168,10 @@ func newPluginContainer() *PluginContainer {
 
 func (p *PluginContainer) cloneAndAppendMiddle(plugins ...Plugin) *PluginContainer {
 	middle := newPluginSingleContainer()
-	middle.plugins = append(p.middle.GetAll(), plugins...)
+	// copy: appending in place would let sibling containers cloned from p share
+	// (and overwrite) the spare capacity of p's list
+	all := p.middle.GetAll()
+	middle.plugins = append(all[:len(all):len(all)], plugins...)
 
 	newPluginContainer := newPluginContainer()
 	newPluginContainer.middle = middle
